@@ -25,6 +25,10 @@ type Stream struct {
 	Script []byte
 	// Reads counts the bytes handed out.
 	Reads int64
+	// Script8 is a queue of scripted 8-byte draws: it is consumed only by
+	// reads of exactly 8 bytes (math/rand Int63 draws through csrand), so
+	// key/seed/padding reads of other sizes in between do not disturb it.
+	Script8 [][]byte
 }
 
 // New returns stream (seed,label).
@@ -37,6 +41,11 @@ func New(seed int64, label any) *Stream {
 func (s *Stream) Read(p []byte) (int, error) {
 	n := len(p)
 	s.Reads += int64(n)
+	if n == 8 && len(s.Script8) > 0 {
+		copy(p, s.Script8[0])
+		s.Script8 = s.Script8[1:]
+		return n, nil
+	}
 	for len(p) > 0 && len(s.Script) > 0 {
 		p[0] = s.Script[0]
 		p = p[1:]
